@@ -9,7 +9,8 @@ open AsyncsshModel
 
 theorem opened_wf (iw : Nat) (rt wt : List Nat) (k : Bool) (pw pp : Nat) (p : Paused) :
     WF (Chan.opened iw rt wt k pw pp p) := by
-  refine ⟨⟨by simp [Chan.opened], by simp [Chan.opened]⟩, Or.inl rfl, fun _ => rfl, by simp [Chan.opened],
+  refine ⟨⟨by simp [Chan.opened], by simp [Chan.opened]⟩, Or.inl rfl, by simp [PendOK, Chan.opened], fun _ => rfl,
+    by simp [Chan.opened],
     by simp [Chan.opened], fun _ => rfl, ?_⟩
   simp only [Chan.opened]; omega
 
